@@ -99,7 +99,7 @@ func tokensOf(raw json.RawMessage) []string {
 }
 
 func checkC12(c *Check) {
-	c.rule = "MC_Prec: every ordered pair of the 18 binary operators in both groupings; every triple in all five groupings (quick: a sixth); thorough: all triples and every chain of four operators in all fourteen groupings; 24 shapes mixing a binary operator with each prefix operator, index, call and ternary (ternary as condition / arm / operand / index target / argument); plain and compound assignments whose right-hand side is a binary, nested binary, ternary or prefix-index expression; each tree printed with minimal parenthesisation, with full parenthesisation and with minimal grouping but every identifier in parentheses of its own; 45 texts with a ternary nested without parentheses (in the else arm, the then arm, after an operator, inside a call; the outer then-arm starting with a name, a bracket, a prefix operator, a call, an index) which must be rejected; TLC checks that the model grammar (EFParser) reads both back as the same tree and that regrouping changes the minimal text; the real parser's tree (converted by a type switch over the exported node types) must equal the tree for both texts; distinct = distinct minimal text"
+	c.rule = "MC_Prec: every ordered pair of the 18 binary operators in both groupings; every triple in all five groupings (quick: a sixth); thorough: all triples and every chain of four operators in all fourteen groupings; 24 shapes mixing a binary operator with each prefix operator, index, call and ternary (ternary as condition / arm / operand / index target / argument); plain and compound assignments whose right-hand side is a binary, nested binary, ternary or prefix-index expression; each tree printed with minimal parenthesisation, with full parenthesisation and with minimal grouping but every identifier in parentheses of its own; 51 texts with a ternary nested without parentheses (in the else arm, the then arm, after an operator, inside a call, and inside an argument list, an array literal, a hash literal or an index written in an arm; the outer then-arm starting with a name, a bracket, a prefix operator, a call, an index) which must be rejected; TLC checks that the model grammar (EFParser) reads both back as the same tree and that regrouping changes the minimal text; the real parser's tree (converted by a type switch over the exported node types) must equal the tree for both texts; distinct = distinct minimal text"
 	c.assumptions = []string{"ternaries nested inside ternaries (even bracketed) are not generated; '/' only follows identifiers, ')' and ']'"}
 	type precRow struct {
 		K    string          `json:"k"`
